@@ -41,10 +41,15 @@ class LP(FP):
         return a
     props = set()
     aliases = {}
+    boolexprs = set()
     def unary(self):
         if self.peek() == ("op", "!"):
             self.eat()
             a = self.unary()
+            if a in self.boolexprs:
+                r = f"(!{a})"
+                self.boolexprs.add(r)
+                return r
             return f"(RI.notW {self.W} {a})"
         if self.peek() == ("op", "*"):
             # `*r` for a reference `r`: the place it refers to (an element of the slice, or a header field)
@@ -106,6 +111,12 @@ class LP(FP):
                 self.eat("op", ")")
                 return f"({ctor} {e})"
             return ctor
+        if k == "id" and v in ("anyzero", "room16") and self.peek(1) == ("op", "("):
+            self.eat(); self.eat()
+            arr = self.eat("id"); self.eat("op", ")")
+            r = f"(RI.{v} {arr})"
+            self.boolexprs.add(r)
+            return r
         if k == "id" and v == "std::usize::MAX":
             self.eat()
             return "18446744073709551615"
@@ -150,6 +161,7 @@ class SP:
     def __init__(self, toks, W, suffix):
         self.p = LP(toks, W, {"p_poverty", "compute_array_bits", "p_lookfor"}, suffix)
         self.p.props = set()
+        self.p.boolexprs = set()
     def at(self, v):
         return self.p.at(v)
     def block(self):
@@ -185,9 +197,17 @@ class SP:
                 p.eat(); p.eat()
                 k = p.expr(); p.eat("op", ","); arr = p.eat("id"); p.eat("op", ","); off = p.expr(); p.eat("op", ")")
                 p.eat("op", ";")
+                p.boolexprs.add(x)
                 return ("callrm", x, k, arr, off)
+            if self.at("p_insert") and p.peek(1) == ("op", "("):
+                p.eat(); p.eat()
+                k = p.expr(); p.eat("op", ","); arr = p.eat("id"); p.eat("op", ","); off = p.expr(); p.eat("op", ")")
+                p.eat("op", ";")
+                return ("callins", x, k, arr, off)
             e = p.expr()
             p.eat("op", ";")
+            if e in p.props:
+                p.boolexprs.add(x)
             return ("let", x, e)
         if self.at("return"):
             p.eat()
@@ -207,11 +227,30 @@ class SP:
                 arr, i = p.aliases[v]
                 return ("setidx", arr, i, e)
             return ("assign", v, e)
-        if p.peek()[0] == "id" and p.peek(1) == ("op", ".") and p.peek(2)[0] == "id" and p.peek(3) == ("op", "-") and p.peek(4) == ("op", "="):
-            v = p.eat("id"); p.eat(); f = p.eat("id"); p.eat(); p.eat()
+        if p.peek()[0] == "id" and p.peek(1) == ("op", ".") and p.peek(2)[0] == "id" and p.peek(3) in (("op", "-"), ("op", "+")) and p.peek(4) == ("op", "="):
+            v = p.eat("id"); p.eat(); f = p.eat("id"); op = p.eat(); p.eat()
             e = p.expr()
             p.eat("op", ";")
-            return ("assign", f"{v}_{f}", f"({v}_{f} - {e})")
+            return ("assign", f"{v}_{f}", f"({v}_{f} {op} {e})")
+        if self.at("match") and p.peek(1) == ("id", "p_lookfor"):
+            # match p_lookfor(k, a, off) { LookedUp::KeyFound(idx) => {..} LookedUp::EmptySpot(idx) => {..} LookedUp::NeedInsert => {} }
+            p.eat()
+            scrut = p.expr()
+            p.eat("op", "{")
+            arms = {}
+            while not self.at("}"):
+                ctor = p.eat("id")
+                v = None
+                if p.peek() == ("op", "("):
+                    p.eat(); v = p.eat("id"); p.eat("op", ")")
+                p.eat("op", "="); p.eat("op", ">")
+                arms[ctor] = (v, self.braced())
+                if p.peek() == ("op", ","):
+                    p.eat()
+            p.eat("op", "}")
+            if set(arms) != {"LookedUp::KeyFound", "LookedUp::EmptySpot", "LookedUp::NeedInsert"}:
+                raise TieError("match p_lookfor: arms")
+            return ("matchlf", scrut, arms)
         if self.at("panic") or self.at("unreachable"):
             kind = p.eat("id")
             p.eat("op", "!")
@@ -337,6 +376,11 @@ def assigned(stmts):
             out |= assigned(s[4])
         elif s[0] == "forlist":
             out |= assigned(s[3])
+        elif s[0] == "matchlf":
+            for _, (_, b) in s[2].items():
+                out |= assigned(b)
+        elif s[0] == "callins" or s[0] == "callrm":
+            out.add(s[3])
     return out
 
 class Gen:
@@ -355,8 +399,9 @@ class Gen:
         if self.szvar:
             return f"(Except.ok (({v}, {self.szvar}), a))"
         return f"(Except.ok ({e}, a))"
+    boolexprs = set()
     def cond(self, c):
-        return f"({c} = true)" if c in self.boolvars else c
+        return f"({c} = true)" if (c in self.boolvars or c in self.boolexprs) else c
     def ty(self, x):
         return dict(self.params).get(x, "List Nat" if x == "bitsplits" else "Nat")
     def comp(self, stmts, scope, tail):
@@ -373,6 +418,19 @@ class Gen:
                 self.boolvars.add(s[1])
                 return f"(let {s[1]} := decide {s[2]}; {self.comp(rest, scope + [s[1]], tail)})"
             return f"(let {s[1]} := {s[2]}; {self.comp(rest, scope + [s[1]], tail)})"
+        if k == "callins":
+            _, x, key, arr, off = s
+            return (f"(match p_insert_{self.suffix} {key} {arr} {off} with | Except.error err => Except.error err "
+                    f"| Except.ok ({x}, {arr}) => {self.comp(rest, scope + [x], tail)})")
+        if k == "matchlf":
+            _, scrut, arms = s
+            fv, fb = arms["LookedUp::KeyFound"]
+            ev, eb = arms["LookedUp::EmptySpot"]
+            _, nb = arms["LookedUp::NeedInsert"]
+            return (f"(match {scrut} with | Except.error err => Except.error err "
+                    f"| Except.ok (Looked.found {fv}, _) => {self.comp(fb + rest, scope + [fv], tail)} "
+                    f"| Except.ok (Looked.empty {ev}, _) => {self.comp(eb + rest, scope + [ev], tail)} "
+                    f"| Except.ok (Looked.needInsert, _) => {self.comp(nb + rest, scope, tail)})")
         if k == "callrm":
             _, x, key, arr, off = s
             if x != "_":
@@ -517,6 +575,68 @@ def gen_remove(src, W, suffix):
         out.append(f"def remove_{arm}_{suffix} {sig} : Except String ((Bool × Nat) × Array Nat) := {top}")
     return out
 
+def block_after(text, start):
+    """(block body, index after its closing brace) of the `{`-block that starts at or after `start`"""
+    b, j = body_of(text, start)
+    return b, j + 1
+
+def gen_insert_fast(src, W, suffix):
+    """the arms of `insert` up to the point where the set has to grow: the growing parts are replaced by `panic!()`
+    (an `.error`): whenever the translated arm returns `.ok`, no growth happened"""
+    ty = "u64" if W == 64 else "u32"
+    m = re.search(r'\n    pub fn insert\(&mut self, e: %s\) -> bool \{' % ty, src)
+    if not m:
+        raise TieError(f"cannot find insert ({suffix})")
+    body = body_of(src, m.end() - 1)[0]
+    out = []
+    # Dense arm: `if let Some(bits) = a.get_mut(key) { in place } else { grow / convert }`
+    mm = re.search(r'InternalMut::Dense \{ sz, a \} => \{', body)
+    if not mm:
+        raise TieError(f"insert ({suffix}): dense arm")
+    ab = body_of(body, mm.end() - 1)[0]
+    k = re.search(r'if let Some\(bits\) = a\.get_mut\(key\) \{', ab)
+    if not k:
+        raise TieError(f"insert ({suffix}): dense arm shape")
+    then_b, after = block_after(ab, k.end() - 1)
+    if not re.match(r'\s*else \{', ab[after:]):
+        raise TieError(f"insert ({suffix}): dense arm else")
+    dense = ab[:after] + " else { panic!() }"
+    # Heap arm: the narrowing rebuild and everything after the room test are growth
+    mm = re.search(r'InternalMut::Heap \{ s, a \} => \{', body)
+    if not mm:
+        raise TieError(f"insert ({suffix}): heap arm")
+    ab = body_of(body, mm.end() - 1)[0]
+    k = re.search(r'if compute_array_bits\(e\) < s\.bits \{', ab)
+    if not k:
+        raise TieError(f"insert ({suffix}): heap arm narrowing test")
+    _, after = block_after(ab, k.end() - 1)
+    ab = ab[:k.end()] + " panic!() }" + ab[after:]
+    if W == 64:
+        room = re.search(r'if a\.iter\(\)\.cloned\(\)\.any\(\|x\| x == 0\) \{', ab)
+        pseudo = "if anyzero(a) {"
+    else:
+        room = re.search(r'if a\.iter\(\)\s*\.cloned\(\)\s*\.filter\(\|&x\| x == 0\)[^\n]*\s*\.enumerate\(\)[^\n]*\s*\.any\(\|\(n, _\)\| n \+ 1 > a\.len\(\) >> 4\)\s*(?://[^\n]*\s*)?\{', ab)
+        pseudo = "if room16(a) {"
+    if not room:
+        raise TieError(f"insert ({suffix}): heap arm room test")
+    _, after = block_after(ab, room.end() - 1)
+    heap = ab[:room.start()] + pseudo + ab[room.end():after] + " panic!()"
+    for arm, text, params, szvar in (("dense", dense, [("e", "Nat"), ("sz", "Nat"), ("a", "Array Nat")], "sz"),
+                                     ("heap", heap, [("e", "Nat"), ("s_sz", "Nat"), ("s_bits", "Nat"), ("a", "Array Nat")], "s_sz")):
+        sp = SP(lex(text), W, suffix)
+        sp.p.aliases = {}
+        stmts = sp.block()
+        if sp.p.peek()[0] != "eof":
+            raise TieError(f"insert {arm}: trailing tokens {sp.p.peek()}")
+        g = Gen(f"insert_{arm}_{suffix}", params, "Except String ((Bool × Nat) × Array Nat)", props=sp.p.props)
+        g.szvar = szvar
+        g.suffix = suffix
+        g.boolexprs = sp.p.boolexprs
+        top = g.comp(stmts, [x for x, _ in params], None)
+        sig = " ".join(f"({x} : {t})" for x, t in params)
+        out.append(f"def insert_{arm}_{suffix} {sig} : Except String ((Bool × Nat) × Array Nat) := {top}")
+    return out
+
 def gen_tiny_contains(src, W, suffix):
     ty = "u64" if W == 64 else "u32"
     out = []
@@ -557,6 +677,9 @@ def gen_loops(s64, s32):
            "  | .ok (.found i, _) => some i",
            "  | _ => none",
            "def keyFound (r : Except String (Looked × Array Nat)) : Bool := (foundIdx r).isSome",
+           "/-- `a.iter().cloned().any(|x| x == 0)`; more than 1/16 of the buckets empty (`SetU32`) -/",
+           "def anyzero (a : Array Nat) : Bool := a.toList.any (· == 0)",
+           "def room16 (a : Array Nat) : Bool := (a.toList.filter (· == 0)).length > a.size >>> 4",
            "/-- `!x` of a `w`-bit unsigned value -/",
            "def notW (w x : Nat) : Nat := 2 ^ w - 1 - x",
            "end RI"]
@@ -569,6 +692,7 @@ def gen_loops(s64, s32):
         out += gen_contains(src, W, suffix)
         out += gen_remove(src, W, suffix)
         out += gen_tiny_contains(src, W, suffix)
+        out += gen_insert_fast(src, W, suffix)
     out.append("end Gen")
     return "\n".join(out) + "\n"
 
